@@ -37,6 +37,11 @@ type faultConn struct {
 	closeCalls int
 	readDl     int // SetReadDeadline calls made by the session
 	writeDl    int
+
+	// amp > 1: every byte the session writes goes onto the wire amp times (the peer side of the harness folds
+	// them back).  Payloads stay a few bytes in the case terms while a loopback TCP connection carries enough
+	// data for the kernel buffers to fill and the session's Write to block on a slowly reading peer.
+	amp int
 }
 
 func newFaultConn(under net.Conn, id int) *faultConn {
@@ -79,7 +84,20 @@ func (c *faultConn) Write(b []byte) (int, error) {
 	if f != faultNone {
 		return 0, c.writeErr(f, nil)
 	}
-	n, err := c.under.Write(b)
+	var n int
+	var err error
+	if c.amp > 1 {
+		big := make([]byte, 0, len(b)*c.amp)
+		for _, x := range b {
+			for j := 0; j < c.amp; j++ {
+				big = append(big, x)
+			}
+		}
+		n, err = c.under.Write(big)
+		n /= c.amp
+	} else {
+		n, err = c.under.Write(b)
+	}
 	if err != nil {
 		c.mu.Lock()
 		f = c.wfault
